@@ -142,7 +142,7 @@ HOSTILE = {
     "ws": ["\n", "\t", "\n\n", "  ", " \n ", "\t\t"],
     "tags": ["<i>", "</i>", "&amp;", "<b>", "</em>"],
     "dash": ["-", "—", "--"],
-    "longnum": ["9" * 21, "1" * 400, "0" * 50],
+    "longnum": ["9" * 21, "1" * 400, "0" * 50, "7" * 4400],   # 4400 > CPython's 4300-digit int() limit
     "star": ["*", "**", "\\"],
     "surrogate": ["\ud800", "\udfff"],
     "astral": ["\U00010000", "\U0001f600"],
